@@ -545,6 +545,10 @@ theorem reopenHyp_of_reopen (s s' : Store) (h : s.reopen = .ok s') : ReopenHyp s
               | some v => simp
             · intro e he
               obtain ⟨raw, h1, h2⟩ := hsp.2 e he
-              exact ⟨raw, h1, h2.symm⟩
+              have hk : e.key ∈ b.dvOpen := by rw [← hsp.1]; exact List.mem_map_of_mem he
+              refine ⟨raw, ?_, h2.symm⟩
+              show lookup e.key (s.dvFiles.filter fun x => b.dvOpen.contains x.1) = some raw
+              rw [lookup_filter (fun a => b.dvOpen.contains a) e.key (by simpa using hk)]
+              exact h1
 
 end RlModel
